@@ -11,6 +11,7 @@ import (
 	"time"
 
 	"github.com/icon-project/goloop/chain/base"
+	"github.com/icon-project/goloop/common/db"
 	"github.com/icon-project/goloop/common/log"
 	"github.com/icon-project/goloop/module"
 	"github.com/icon-project/goloop/service/platform/basic"
@@ -149,4 +150,32 @@ func Propose(bm module.BlockManager, parentID []byte, votes module.CommitVoteSet
 		return nil, nil, false
 	}
 	return res.bc, res.err, true
+}
+
+// WaitLocators waits until the transaction ids of the node's last finalized block have reached the
+// locator bucket of its database. The repository's test ServiceManager drops pooled transactions by
+// looking them up in that bucket, which common/txlocator fills asynchronously after Finalize: without
+// this wait a loaded machine can see the same transaction proposed (and committed) in two blocks,
+// which no real transaction pool would do. Pure fixture synchronisation, no verdict depends on it.
+func WaitLocators(n *test.Node) {
+	blk, err := n.BM.GetLastBlock()
+	if err != nil || blk == nil {
+		return
+	}
+	bk, err := n.Chain.Database().GetBucket(db.TransactionLocatorByHash)
+	if err != nil {
+		return
+	}
+	for it := blk.NormalTransactions().Iterator(); it.Has(); _ = it.Next() {
+		tx, _, err := it.Get()
+		if err != nil {
+			return
+		}
+		for i := 0; i < 10000; i++ {
+			if bs, err := bk.Get(tx.ID()); err == nil && bs != nil {
+				break
+			}
+			time.Sleep(time.Millisecond)
+		}
+	}
 }
